@@ -40,6 +40,7 @@ Next == UNCHANGED i
 Say(kind, idx, clause) == PrintT(<<"R", kind, idx, clause>>)
 DevStr(d) == (IF "excLeak" \in d THEN "+excLeak" ELSE "") \o (IF "origNested" \in d THEN "+origNested" ELSE "")
              \o (IF "inPlace" \in d THEN "+inPlace" ELSE "") \o (IF "setListing" \in d THEN "+setListing" ELSE "")
+             \o (IF "validateLeak" \in d THEN "+validateLeak" ELSE "")
              \o (IF "litEq" \in d THEN "+litEq" ELSE "") \o (IF "dictKey" \in d THEN "+dictKey" ELSE "")
              \o (IF "serCollision" \in d THEN "+serCollision" ELSE "") \o (IF "yamlFloatStr" \in d THEN "+yamlFloatStr" ELSE "")
              \o (IF "serLenient" \in d THEN "+serLenient" ELSE "") \o (IF "jsonKeyCollision" \in d THEN "+jsonKeyCollision" ELSE "") \o (IF "leftObject" \in d THEN "+leftObject" ELSE "") \o (IF "leftSet" \in d THEN "+leftSet" ELSE "")
@@ -76,7 +77,7 @@ MultiBag(sp) == CASE sp.k = "bag" -> Cardinality(DOMAIN sp.v) > 1
 
 \* deviations of a re-parse that change its outcome (litEq / dictKey return the value they were given; litEq is
 \* offered as a reason only when nothing else is, see d2 below)
-Causal == {"inPlace", "excLeak", "origNested", "setListing", "firstMatch"}
+Causal == {"inPlace", "excLeak", "origNested", "setListing", "firstMatch", "validateLeak"}
 CheckFix(n) ==
   LET o   == Obs[n]
       ty  == T(o.t)
